@@ -116,7 +116,9 @@ func (c *LRUCache) Write(addr int32, data []int8) {
 	panic("cache line doesn't exist")
 }
 
-func (c *LRUCache) PushLine(addr AlignedAddress, data []int8) []int8 {
+// PushLine inserts a line and returns the line it evicts, if any: the caller
+// has to write it back at the evicted line's own address.
+func (c *LRUCache) PushLine(addr AlignedAddress, data []int8) *Line {
 	newLine := Line{
 		Boundary: [2]AlignedAddress{addr, addr + AlignedAddress(c.lineLength)},
 		Data:     data,
@@ -127,7 +129,7 @@ func (c *LRUCache) PushLine(addr AlignedAddress, data []int8) []int8 {
 		// Return the evicted line
 		evicted := c.lines[len(c.lines)-1]
 		c.lines = c.lines[:c.numberOfLines]
-		return evicted.Data
+		return &evicted
 	}
 	return nil
 }
